@@ -109,6 +109,39 @@ package asm
 //@   loop 3 invariant all(k, string, all(j, int, visited(3, k) && 0 <= j && j < len(a.danglingU16[k]) ==> e.danglingU16[k][j] == a.danglingU16[k][j]))
 //@   loop 3 modifies e.danglingU16
 
+//@ func (*Emitter).Append
+//@   property C16
+//@   requires a.n >= 0 && a.n <= len(a.code) && e.n >= 0 && e.n <= len(e.code)
+//@   panics a.n+e.n > len(a.code)
+//@   onpanic a.n == old(a.n) && a.address == old(a.address) && a.base == old(a.base) && a.flagsTracker == old(a.flagsTracker) && len(a.lines) == old(len(a.lines))
+//@   onpanic all(j, int, 0 <= j && j < len(a.code) ==> a.code[j] == old(a.code[j])) && all(k, string, has(a.labels, k) == old(has(a.labels, k)) && a.labels[k] == old(a.labels[k]))
+//@   ensures a.n == old(a.n)+e.n && a.address == e.address && a.base == e.base && a.baseSet == e.baseSet && a.flagsTracker == e.flagsTracker
+//@   ensures all(j, int, 0 <= j && j < e.n ==> a.code[old(a.n)+j] == e.code[j])
+//@   ensures all(j, int, 0 <= j && j < len(a.code) && (j < old(a.n) || j >= old(a.n)+e.n) ==> a.code[j] == old(a.code[j]))
+//@   ensures len(a.lines) == old(len(a.lines))+len(e.lines)
+//@   ensures all(j, int, 0 <= j && j < old(len(a.lines)) ==> a.lines[j] == old(a.lines[j])) && all(j, int, 0 <= j && j < len(e.lines) ==> a.lines[old(len(a.lines))+j] == e.lines[j])
+//@   ensures all(k, string, has(a.labels, k) == (old(has(a.labels, k)) || has(e.labels, k)) && (has(e.labels, k) ==> a.labels[k] == e.labels[k]) && (!has(e.labels, k) ==> a.labels[k] == old(a.labels[k])))
+//@   ensures all(k, string, has(a.danglingS8, k) == (old(has(a.danglingS8, k)) || has(e.danglingS8, k)) && (has(e.danglingS8, k) ==> len(a.danglingS8[k]) == len(e.danglingS8[k])))
+//@   ensures all(k, string, all(j, int, has(e.danglingS8, k) && 0 <= j && j < len(e.danglingS8[k]) ==> a.danglingS8[k][j] == e.danglingS8[k][j]))
+//@   ensures all(k, string, all(j, int, !has(e.danglingS8, k) ==> len(a.danglingS8[k]) == old(len(a.danglingS8[k])) && a.danglingS8[k][j] == old(a.danglingS8[k][j])))
+//@   ensures all(k, string, has(a.danglingU16, k) == (old(has(a.danglingU16, k)) || has(e.danglingU16, k)) && (has(e.danglingU16, k) ==> len(a.danglingU16[k]) == len(e.danglingU16[k])))
+//@   ensures all(k, string, all(j, int, has(e.danglingU16, k) && 0 <= j && j < len(e.danglingU16[k]) ==> a.danglingU16[k][j] == e.danglingU16[k][j]))
+//@   ensures all(k, string, all(j, int, !has(e.danglingU16, k) ==> len(a.danglingU16[k]) == old(len(a.danglingU16[k])) && a.danglingU16[k][j] == old(a.danglingU16[k][j])))
+//@   assigns a.n, a.code, a.address, a.base, a.baseSet, a.flagsTracker, a.lines, a.labels, a.danglingS8, a.danglingU16
+//@   loop 1 invariant all(k, string, visited(1, k) ==> has(e.labels, k))
+//@   loop 1 invariant all(k, string, has(a.labels, k) == (old(has(a.labels, k)) || visited(1, k)) && (visited(1, k) ==> a.labels[k] == e.labels[k]) && (!visited(1, k) ==> a.labels[k] == old(a.labels[k])))
+//@   loop 1 modifies a.labels
+//@   loop 2 invariant all(k, string, visited(2, k) ==> has(e.danglingS8, k))
+//@   loop 2 invariant all(k, string, has(a.danglingS8, k) == (old(has(a.danglingS8, k)) || visited(2, k)) && (visited(2, k) ==> len(a.danglingS8[k]) == len(e.danglingS8[k])))
+//@   loop 2 invariant all(k, string, all(j, int, visited(2, k) && 0 <= j && j < len(e.danglingS8[k]) ==> a.danglingS8[k][j] == e.danglingS8[k][j]))
+//@   loop 2 invariant all(k, string, all(j, int, !visited(2, k) ==> len(a.danglingS8[k]) == old(len(a.danglingS8[k])) && a.danglingS8[k][j] == old(a.danglingS8[k][j])))
+//@   loop 2 modifies a.danglingS8
+//@   loop 3 invariant all(k, string, visited(3, k) ==> has(e.danglingU16, k))
+//@   loop 3 invariant all(k, string, has(a.danglingU16, k) == (old(has(a.danglingU16, k)) || visited(3, k)) && (visited(3, k) ==> len(a.danglingU16[k]) == len(e.danglingU16[k])))
+//@   loop 3 invariant all(k, string, all(j, int, visited(3, k) && 0 <= j && j < len(e.danglingU16[k]) ==> a.danglingU16[k][j] == e.danglingU16[k][j]))
+//@   loop 3 invariant all(k, string, all(j, int, !visited(3, k) ==> len(a.danglingU16[k]) == old(len(a.danglingU16[k])) && a.danglingU16[k][j] == old(a.danglingU16[k][j])))
+//@   loop 3 modifies a.danglingU16
+
 // ---- instruction methods (generated by /verif/tools/gen_asm_contracts.py from the method names) ----
 // classified: 90, uncovered by the naming grammar: none
 
